@@ -40,6 +40,9 @@ mod v1 {
     use std::fmt::Debug;
     use std::sync::RwLock;
 
+    #[cfg(feature = "verif_hooks")]
+    use crate::verif::chan::pubsub;
+    #[cfg(not(feature = "verif_hooks"))]
     use tokio::sync::broadcast as pubsub;
 
     use crate::concurrency::JoinHandle;
